@@ -228,6 +228,10 @@ impl State {
             } else {
                 others[usize::from(b - 128) * others.len() / 128]
             }
+        } else if self.pos > self.bytes.len() {
+            // no decision bytes left and the current task cannot continue: round-robin, so that a
+            // task spinning on a lock never starves the lock holder
+            *others.iter().find(|t| **t > cur).unwrap_or(&others[0])
         } else {
             others[usize::from(b) * others.len() / 256]
         };
@@ -299,6 +303,12 @@ impl State {
         let epoch = self.tick(t);
         let n = self.ntasks + 1;
         let loc = self.locs.entry(addr).or_default();
+        // The memory at this address was re-initialised behind the model's back (a new object
+        // constructed at a recycled address: constructors are not atomic operations): what the
+        // real operation read differs from the model's newest store. Start a fresh history.
+        if loc.stores.last().is_some_and(|s| s.value != old) {
+            *loc = Location::default();
+        }
         if loc.stores.is_empty() {
             // initial value: written before any task started (happens-before everything)
             loc.stores.push(StoreRec {
@@ -586,6 +596,14 @@ pub fn yield_point() {
     if let Some(t) = me() {
         switch_point(&sh, t, false);
     }
+}
+
+/// The calling task's current vector clock (one component per task plus the harness thread).
+pub fn clock_snapshot() -> Vec<u32> {
+    let Some(sh) = active() else { return Vec::new() };
+    let t = task_or_main(&sh);
+    let st = lock(&sh);
+    st.tasks[t].clock.0.clone()
 }
 
 pub fn current_task() -> Option<usize> {
